@@ -674,6 +674,11 @@ func (w *World) Options(s *kernel.Sim) []kernel.Option {
 	}
 	if w.x != nil {
 		opts = append(opts, w.x.options(parked)...)
+		if w.mode.Prop == "C14" {
+			if o, ok := w.x.foreignHashOption(); ok {
+				opts = append(opts, o)
+			}
+		}
 	}
 	if s.FaultsOn() {
 		for _, p := range parked {
